@@ -30,6 +30,8 @@ func runC03(c *core.Ctx) {
 	c.Doc("fieldkey", 1, "FieldKey: first part of the hseq tag if non-empty, else Name")
 	c.Doc("first-match", 3, "lookups return the first element matching exactly")
 	c.Doc("names-order", 1, "New(names...)[i] = ForName(listing, names[i])")
+	c.Doc("listing-immutable", 1, "no function of hseq writes into, sorts or copies onto a listing it was given")
+	listingImmutable(c)
 	c.Doc("positional", 1, "FMap: val[i] = f(seq[i])")
 	c.Doc("offs-term", 3, "true offsets (shared with C01)")
 
@@ -1166,4 +1168,72 @@ func mentionsTerm(t *ir.Term, v *ssa.Parameter) bool {
 		}
 	})
 	return found
+}
+
+
+// listingImmutable: a listing (hseq.Seq, a slice of hseq.Type) that a function of package hseq receives - as a
+// parameter or as its receiver - is the caller's: its order is what the caller selected. No function of the package
+// stores into an element of such a slice, sorts or reverses it, or copies onto it (a debug String() that sorts "for
+// comparable logs" reorders the selection the caller goes on to use). Writes into slices the function made itself
+// (New's selection, FMap's result) are fine.
+func listingImmutable(c *core.Ctx) {
+	isListing := func(t types.Type) bool {
+		sl, ok := t.Underlying().(*types.Slice)
+		return ok && isHseqType(sl.Elem())
+	}
+	strip := func(v ssa.Value) ssa.Value {
+		for {
+			switch x := v.(type) {
+			case *ssa.MakeInterface:
+				v = x.X
+			case *ssa.ChangeType:
+				v = x.X
+			default:
+				return v
+			}
+		}
+	}
+	bad, nFn := 0, 0
+	for _, fn := range c.W.SourceFuncs("hseq") {
+		nFn++
+		name := "hseq." + fnLabel(fn)
+		for _, b := range fn.Blocks {
+			for _, in := range b.Instrs {
+				switch x := in.(type) {
+				case *ssa.Store:
+					if ia, ok := x.Addr.(*ssa.IndexAddr); ok && isListing(ia.X.Type()) && !freshSlice(ia.X) {
+						bad++
+						c.Fail("listing-immutable", name, x.Pos(), "an element of a listing the function did not make itself is overwritten: the caller's selection is changed under its feet")
+					}
+				case *ssa.Call:
+					if bi, ok := x.Call.Value.(*ssa.Builtin); ok && bi.Name() == "copy" && len(x.Call.Args) > 0 {
+						if isListing(x.Call.Args[0].Type()) && !freshSlice(strip(x.Call.Args[0])) {
+							bad++
+							c.Fail("listing-immutable", name, x.Pos(), "copy onto a listing the function did not make itself")
+						}
+						continue
+					}
+					sc := x.Call.StaticCallee()
+					if sc == nil || sc.Pkg == nil {
+						continue
+					}
+					pp := sc.Pkg.Pkg.Path()
+					mutates := pp == "sort" || pp == "slices" && (strings.HasPrefix(sc.Name(), "Sort") || sc.Name() == "Reverse" || strings.HasPrefix(sc.Name(), "Compact") || strings.HasPrefix(sc.Name(), "Delete") || sc.Name() == "Insert" || sc.Name() == "Replace")
+					if !mutates {
+						continue
+					}
+					for _, a := range x.Call.Args {
+						v := strip(a)
+						if isListing(v.Type()) && !freshSlice(v) {
+							bad++
+							c.Fail("listing-immutable", name, x.Pos(), "%s.%s reorders a listing the function did not make itself: a selection the caller asked for in its own order comes back sorted", pp, sc.Name())
+						}
+					}
+				}
+			}
+		}
+	}
+	if bad == 0 {
+		c.Check(nFn > 0, "listing-immutable", "hseq", 0, fmt.Sprintf("%d functions: no store into, sort of or copy onto a foreign listing", nFn), "package hseq not loaded")
+	}
 }
